@@ -144,6 +144,7 @@ def polygon_move_harness(n):
         v = C.V(vc, "v")
         vv = SP.vec(v)
         old_pts = [SP.vec(p) for p in pg.points]
+        old_n = SP.vec(pg.plane.n)
         d1, d2 = SP.sub(old_pts[1], old_pts[0]), SP.sub(old_pts[2], old_pts[0])
         bv = vc.snapshot(v)
         built = []
@@ -170,6 +171,8 @@ def polygon_move_harness(n):
             vc.ensure("receiver: plane equals the plane freshly constructed from the translated vertices", sem_equal(pg.plane, fresh.value))
         else:
             vc.fail("fresh plane construction raised %r" % (fresh.value,))
+        # with the plane clause above (same plane, hence parallel unit normals) this pins the normal itself: lemma "unit, parallel, positive inner product => equal" below
+        vc.ensure("receiver: the normal keeps its side (the translated cycle is still counter-clockwise about it)", SP.gtz(SP.dot(SP.vec(pg.plane.n), old_n)))
         cx = [sum(p[k] for p in old_pts) / n + vv[k] for k in range(3)]
         vc.ensure("receiver: centre equals the mean of the translated vertices", SP.veq(SP.vec(pg.center_point), cx))
         vc.ensure("returned object is built by the constructor from exactly the receiver's new vertices",
@@ -180,21 +183,159 @@ def polygon_move_harness(n):
     return h
 
 
+
+def h_unit_parallel_lemma(vc):
+    """two unit vectors that are parallel and have a positive inner product are equal (what turns 'same plane, same side' into 'same normal')"""
+    u, w = C.witness(vc, "u"), C.witness(vc, "w")
+    vc.assume(And(SP.eq(SP.norm2(u), 1), SP.eq(SP.norm2(w), 1)), "unit vectors")
+    vc.assume(And(*[SP.eqz(c_) for c_ in SP.cross(u, w)]), "parallel")
+    vc.assume(SP.gtz(SP.dot(u, w)), "positive inner product")
+    if vc.symbolic:
+        d = SP.dot(u, w)
+        vc.hint("Lagrange", d * d + SP.norm2(SP.cross(u, w)) == SP.norm2(u) * SP.norm2(w))
+        vc.hint("|u - w|^2", SP.norm2(SP.sub(u, w)) == SP.norm2(u) + SP.norm2(w) - 2 * d)
+        vc.have("u.w = 1", d == 1, using=[d * d + SP.norm2(SP.cross(u, w)) == SP.norm2(u) * SP.norm2(w), SP.eq(SP.norm2(u), 1), SP.eq(SP.norm2(w), 1), And(*[SP.eqz(c_) for c_ in SP.cross(u, w)]), SP.gtz(d)])
+    vc.ensure("lemma: unit, parallel, positive inner product => equal", SP.veq(u, w))
+
+
 def _more_groups(tier):
     from props.C01 import coord_stubs
     cs = coord_stubs() + [(C.T_LENGTH, C.x_length), (C.T_NORMALIZED, C.x_normalized)]
     gs = []
+    gs.append(Group("lemma: unit parallel vectors on the same side are equal", h_unit_parallel_lemma, ["spec:unit normals"], world="COORD", timeout_s=300))
     for n in ((3, 4, 5, 6, 7) if tier == "quick" else (3, 4, 5, 6, 7, 8)):
         gs.append(Group("ConvexPolygon.move[n=%d, receiver state]" % n, polygon_move_harness(n), ["Geometry3D.geometry.polygon:ConvexPolygon.move", "Geometry3D.geometry.polygon:ConvexPolygon._get_center_point"],
                         stubs=cs, world="COORD", timeout_s=600, prove_ms=30000))
     return gs
 
 
+# ---------------------------------------------------------------------------
+# ConvexPolyhedron.move on a tetrahedron with symbolic vertices (faces given in arbitrary orientation, the body built by the real constructor):
+# the real move body runs - face loop, rebuilt point / segment / pyramid sets, centre, flip test, _check_normal, _euler_check, the final
+# constructor call - with ConvexPolygon.move entering by its contract (proved above for n = 3: receiver translated in the same cyclic order,
+# same unit normal, centre; the returned polygon is built by the constructor from exactly those vertices; that the constructor hands a
+# counter-clockwise triangle back as given is the callee-contract group below, proved on the real _check_and_sort_points)
+# ---------------------------------------------------------------------------
+
+def x_polygon_move(self, v):
+    """contract of ConvexPolygon.move(Vector) as ConvexPolyhedron.move uses it"""
+    from g3dvc import sym as S
+    g = C.G()
+    vc = S.engine()
+    vc.hit("ConvexPolygon.move")
+    if not isinstance(v, g.Vector):
+        raise NotImplementedError("The second parameter for move function must be Vector")
+    vv = SP.vec(v)
+    new = [SP.add(SP.vec(p), vv) for p in self.points]
+    nn = SP.vec(self.plane.n)
+    cc = SP.add(SP.vec(self.center_point), vv)
+
+    def mk(target):
+        target.points = tuple(g.Point(*q) for q in new)
+        pl = g.Plane.__new__(g.Plane)
+        pl.p = g.Point(*new[0])
+        pl.n = g.Vector(*nn)
+        target.plane = pl
+        target.center_point = g.Point(*cc)
+        return target
+
+    mk(self)
+    return mk(g.ConvexPolygon.__new__(g.ConvexPolygon))
+
+
+def tetrahedron_move_harness(bits):
+    def h(vc):
+        from props import C09
+        g = C.G()
+        b, e1, e2, e3 = C.witness(vc, "b"), C.witness(vc, "e1"), C.witness(vc, "e2"), C.witness(vc, "e3")
+        det = SP.det3(e1, e2, e3)
+        vc.assume(Not(SP.eqz(det)), "the body is not flat (edge vectors independent)")
+        verts = [b, SP.add(b, e1), SP.add(b, e2), SP.add(b, e3)]
+        cycles = [list(c)[::-1] if bits[i] else list(c) for i, c in enumerate(C09.BODIES["tetrahedron"]["faces"])]
+        if vc.symbolic:
+            faces = [C09._face(vc, g, [verts[i] for i in cyc], "f%d" % fi) for fi, cyc in enumerate(cycles)]
+        else:
+            faces = [g.ConvexPolygon(tuple(g.Point(*verts[i]) for i in cyc)) for cyc in cycles]
+        c = [sum(v_[k_] for v_ in verts) / 4 for k_ in range(3)]
+        if vc.symbolic:
+            for f in faces:
+                q = SP.dot(SP.sub(SP.vec(f.plane.p), c), SP.vec(f.plane.n))
+                vc.admit(Or(q >= C.ADM * C.EPS0, q <= -C.ADM * C.EPS0), "centre off every face plane by >= 4 eps")
+        ph = g.ConvexPolyhedron(tuple(faces))  # (contract proved in props/C09; a failure here leaves the path undecided)
+        v = C.V(vc, "v")
+        vv = SP.vec(v)
+        bv = vc.snapshot(v)
+        old_faces = [([SP.vec(p) for p in f.points], SP.vec(f.plane.n)) for f in ph.convex_polygons]
+        out = vc.call(ph.move, v, _mutates=(ph,))
+        vc.ensure("ConvexPolyhedron.move(Vector) does not raise", out.returned)
+        if not out.returned:
+            vc.note(repr(out.value))
+            return
+        tv = [SP.add(x, vv) for x in verts]
+        tc = SP.add(c, vv)
+        fs = list(ph.convex_polygons)
+        def same_cycle(pts, ref):
+            """pts is ref up to the start of the cycle (the constructor may start the cycle anywhere: float noise decides natively)"""
+            m = len(ref)
+            if len(pts) != m:
+                return False
+            return Or(*[And(*[SP.veq(SP.vec(pts[i]), ref[(i + r_) % m]) for i in range(m)]) for r_ in range(m)])
+
+        ok_shape = len(fs) == 4 and all(len(f.points) == len(o[0]) for f, o in zip(fs, old_faces))
+        vc.ensure("receiver: four faces, each with the vertices of the old face translated by v in the same cyclic order", ok_shape and And(*[same_cycle(f.points, [SP.add(q, vv) for q in o[0]]) for f, o in zip(fs, old_faces)]))
+        vc.ensure("receiver: every face keeps its outward unit normal", ok_shape and And(*[SP.veq(SP.vec(f.plane.n), o[1]) for f, o in zip(fs, old_faces)]))
+        vc.ensure("receiver: every face plane passes through a translated vertex of that face", ok_shape and And(*[Or(*[SP.veq(SP.vec(f.plane.p), SP.add(q, vv)) for q in o[0]]) for f, o in zip(fs, old_faces)]))
+        vc.ensure("receiver: the vertex set is the four translated vertices, the edge set has six segments", len(ph.point_set) == 4 and len(ph.segment_set) == 6 and
+                  And(*[Or(*[SP.veq(SP.vec(p), t) for p in ph.point_set]) for t in tv]))
+        vc.ensure("receiver: every edge joins two translated vertices", And(*[And(Or(*[SP.veq(SP.vec(s_.start_point), t) for t in tv]), Or(*[SP.veq(SP.vec(s_.end_point), t) for t in tv])) for s_ in ph.segment_set]))
+        vc.ensure("receiver: centre equals the mean of the translated vertices", SP.veq(SP.vec(ph.center_point), tc))
+        vc.ensure("receiver: every face normal still points away from the interior", And(*[SP.gtz(SP.dot(SP.sub(SP.vec(f.plane.p), tc), SP.vec(f.plane.n))) for f in fs]))
+        pys = list(ph.pyramid_set)
+        vc.ensure("receiver: one pyramid per translated face, apex at the translated centre (nothing of the old position is kept)", len(pys) == 4 and
+                  And(*[And(SP.veq(SP.vec(py.point), tc), Or(*[And(len(py.convex_polygon.points) == len(f.points), *[SP.veq(SP.vec(a), SP.vec(b_)) for a, b_ in zip(py.convex_polygon.points, f.points)]) for f in fs]))
+                        for py in pys]))
+        r = out.value
+        ok_r = isinstance(r, g.ConvexPolyhedron) and r is not ph
+        vc.ensure("returned object is a different ConvexPolyhedron", ok_r)
+        if ok_r:
+            vc.ensure("returned object: same centre, same four vertices, six edges, four faces", len(r.point_set) == 4 and len(r.segment_set) == 6 and len(r.convex_polygons) == 4 and
+                      And(SP.veq(SP.vec(r.center_point), tc), *[Or(*[SP.veq(SP.vec(p), t) for p in r.point_set]) for t in tv]))
+            vc.ensure("returned object: every face is a translated face of the receiver with the same outward normal",
+                      And(*[Or(*[And(SP.veq(SP.vec(rf.plane.n), SP.vec(f.plane.n)), *[Or(*[SP.veq(SP.vec(a), SP.vec(b_)) for b_ in f.points]) for a in rf.points]) for f in fs if len(f.points) == len(rf.points)] or [False]) for rf in r.convex_polygons]))
+            vc.ensure("returned object shares no mutable state with the receiver (moving one later does not move the other)", not (mutable_ids(r) & mutable_ids(ph)))
+        vc.ensure("frame: the vector is unchanged", vc.snapshot(v) == bv)
+        vc.ensure("receiver shares no mutable state with the vector", not (mutable_ids(ph) & mutable_ids(v)))
+
+    return h
+
+
+def _polyhedron_groups(tier):
+    from props.C01 import coord_stubs
+    from props import C09
+    names = []
+    gs = []
+    tcs = coord_stubs() + [(C.T_LENGTH, C.x_length), (C.T_NORMALIZED, C.x_normalized), ("Geometry3D.geometry.polygon:ConvexPolygon.__neg__", C09.x_polygon_neg),
+                           ("Geometry3D.geometry.polygon:ConvexPolygon.move", x_polygon_move)]
+    # thorough tier only: one group takes 8 - 10 min (the real constructor runs twice on symbolic state); the quick tier keeps polyhedron moves in the bounded histories
+    if tier == "quick":
+        return []
+    for bits in [(0, 0, 0, 0), (1, 0, 0, 1), (1, 1, 1, 1)]:
+        nm = "ConvexPolyhedron.move[tetrahedron, face orientations %s, all positions, all vectors]" % "".join(map(str, bits))
+        names.append(nm)
+        gs.append(Group(nm, tetrahedron_move_harness(bits), ["Geometry3D.geometry.polyhedron:ConvexPolyhedron.move", "Geometry3D.geometry.polyhedron:ConvexPolyhedron._get_center_point",
+                        "Geometry3D.geometry.polyhedron:ConvexPolyhedron._check_normal", "Geometry3D.geometry.polyhedron:ConvexPolyhedron._euler_check", "Geometry3D.geometry.polyhedron:ConvexPolyhedron.__init__",
+                        "Geometry3D.geometry.pyramid:Pyramid.__init__"], stubs=tcs, world="COORD", timeout_s=1800, prove_ms=30000, expect_hits=["ConvexPolygon.move"]))
+    callee = Group("ConvexPolygon._check_and_sort_points[n=3] callee-contract clause assumed by the ConvexPolygon.move stub: a counter-clockwise triangle comes back as given",
+                   C09.sort_harness(3, (0, 1, 2), pin_first=True), ["Geometry3D.geometry.polygon:ConvexPolygon._check_and_sort_points"], stubs=C09.make_sort_stubs(), world="FRAME", timeout_s=600, prove_ms=20000,
+                   expect_hits=["Vector.__mul__[frame coordinate]"], callee_for=names)
+    return [callee] + gs
+
+
 _groups_flat = groups
 
 
 def groups(tier):
-    return _groups_flat(tier) + _more_groups(tier)
+    return _groups_flat(tier) + _more_groups(tier) + _polyhedron_groups(tier)
 
 
 # ---------------------------------------------------------------------------
